@@ -147,7 +147,10 @@ Inductive sop : Type :=
 | OEnd (who : N) (now : N)
 | OSmp (who : N) (now : N) (c : smp_call) (rnd : list N)
 | OExtraKey (who : N) (now : N) (usage : N) (data : bytes)
-| OSendTLVs (who : N) (now : N) (tlvs : list stlv).
+| OSendTLVs (who : N) (now : N) (tlvs : list stlv)
+(* party [sender] sends, through its own session, the SMP TLVs found in output [idx] of party [src], after
+   replacing value number [field] by the boundary value class [cls] (cls = 99: unchanged; cls >= 20: drop cls-20 values) *)
+| OForwardSmp (src : N) (idx : N) (sender : N) (now : N) (field : N) (cls : N).
 
 (* ---------------- observations ---------------- *)
 Definition tag_class (s : sys) (t from : N) : N :=
@@ -202,6 +205,37 @@ Definition apply_call (s : sys) (who now : N) (c : call) : sys * val :=
                s_disclosed := set_nth (s_disclosed s) i (nth i (s_disclosed s) [] ++ disclosed_in (r_out r)) |} in
   (s', obs s' who r).
 
+(* boundary value classes of the deviant-message sweep: 0 -> 0, 1 -> 1, 2 -> p-1, 3 -> p, 4 -> p+1, 5 -> q,
+   6 -> random, 7 -> value + 1 *)
+Definition mut_sval (cls : N) (v : sval) : sval :=
+  match v with
+  | VEl e =>
+      VEl (if cls =? 0 then EZero else if cls =? 1 then EKnown false 0 else if cls =? 2 then EKnown true 0
+           else if cls =? 3 then EZero else if cls =? 4 then EKnown false 0 else ETainted (50 + cls))
+  | VNum n =>
+      VNum (if cls =? 0 then 0 else if cls =? 1 then 1 else if cls =? 7 then n + 1 else 123456789 + cls)
+  end.
+Fixpoint mut_nth (l : list sval) (i : nat) (cls : N) : list sval :=
+  match l, i with
+  | [], _ => []
+  | v :: r, O => mut_sval cls v :: r
+  | v :: r, S j => v :: mut_nth r j cls
+  end.
+Definition mut_smp_tlv (field cls : N) (t : stlv) : stlv :=
+  match t with
+  | TSmp ty pl =>
+      if cls =? 99 then t
+      else if 20 <=? cls then TSmp ty {| sp_question := sp_question pl;
+                                         sp_vals := firstn (length (sp_vals pl) - N.to_nat (cls - 20)) (sp_vals pl) |}
+      else TSmp ty {| sp_question := sp_question pl; sp_vals := mut_nth (sp_vals pl) (N.to_nat field) cls |}
+  | _ => t
+  end.
+Definition smp_tlvs_of (w : wire) : list stlv :=
+  match w with
+  | WEnc _ _ _ (EData d) => filter (fun t => match t with TSmp _ _ => true | _ => false end) (p_tlvs (d_payload d))
+  | _ => []
+  end.
+
 Definition run_op (s : sys) (o : sop) : sys * val :=
   match o with
   | OSend who now t => apply_call s who now (CSend t)
@@ -213,6 +247,9 @@ Definition run_op (s : sys) (o : sop) : sys * val :=
   | OSmp who now c rnd => apply_call s who now (CSmp c rnd)
   | OExtraKey who now u d => apply_call s who now (CExtraKey u d)
   | OSendTLVs who now tlvs => apply_call s who now (CSendTLVs tlvs)
+  | OForwardSmp src idx sender now field cls =>
+      let w := nth (N.to_nat idx) (nth (N.to_nat src - 1) (s_outs s) []) junk_wire in
+      apply_call s sender now (CSendTLVs (map (mut_smp_tlv field cls) (smp_tlvs_of w)))
   end.
 
 Fixpoint run_ops (s : sys) (ops : list sop) : list val :=
